@@ -367,7 +367,12 @@ static std::string run_direct(const Args& a, long i) {
     cs.obs.i("section_contours", M.section_loops).i("mother_faces", M.snap0.nf).d("vertex_plane_dist_over_L", M.vplane_min);
     { vec3 a0 = M.c->use_default_axis_ ? vec3(0, 0, 0) : M.c->axis_;   // preamble on stderr: a crash / hang line carries the exact input description
       fprintf(stderr, "C09CASE workload=direct shape=%s(%s) axis=%s(%.17g,%.17g,%.17g) regime=%s lmin=%.17g x=%.4g faces=%ld scale=%.6g vertex_plane_dist_over_L=%.3g\n", M.shape.c_str(), m.name.c_str(), M.axis.c_str(), a0.dx(), a0.dy(), a0.dz(), M.regime.c_str(), M.lmin, M.lmin / reff_of(m), M.snap0.nf, scale, M.vplane_min); fflush(stderr); }
-    auto res = cell_divider::divide_cell(M.c, M.lmin, lmr);
+    // 6 % of the direct calls: a minimum edge length that is tiny with respect to the cell (1e-9 .. 3e-8 r_eff).  The interface sampling refuses the number of
+    // points this asks for; the division cannot be completed and must be abandoned like any other (no exception may escape, the mother stays as she is)
+    const bool tiny_lmin = a.geti("tiny_lmin", 1) != 0 && g.coin(0.06); const double lmin_call = tiny_lmin ? reff_of(m) * g.logu(1e-9, 3e-8) : M.lmin;
+    if (tiny_lmin) { o.bin("tiny_lmin_at_the_call"); cs.obs.d("lmin_at_the_call_over_reff", lmin_call / reff_of(m)); }
+    auto res = cell_divider::divide_cell(M.c, lmin_call, lmr);
+    if (tiny_lmin && res.has_value()) { o.bin("tiny_lmin_division_completed"); cs.nontrivial = true; cs.sig = hash_combine(hash_str(M.shape + M.axis + "tiny"), (uint64_t)M.snap0.nf); return o.str(); }
     const Ev* ev = nullptr; for (const Ev& e : g_events) if (e.m == M.c.get()) ev = &e;
     vec3 ax = M.c->last_axis_;
     cs.obs.b("success", res.has_value()).b("cut_done", ev != nullptr).raw("axis_used", jv3(ax.dx(), ax.dy(), ax.dz()));
